@@ -1508,19 +1508,6 @@ def privatize_inplace(stmts: list[ast.stmt], fn: ast.FunctionDef) -> list[ast.st
     top_of: dict[int, int] = {}
     counter_ = [0]
 
-    def _number(stmts_):
-        for st_ in stmts_:
-            counter_[0] += 1
-            me = counter_[0]
-            for n in ast.walk(st_):
-                top_of.setdefault(id(n), me) if not isinstance(n, ast.stmt) or n is st_ else None
-            for fld in ("body", "orelse", "finalbody"):
-                b_ = getattr(st_, fld, None)
-                if isinstance(b_, list) and b_ and isinstance(b_[0], ast.stmt):
-                    _number(b_)
-            for h_ in getattr(st_, "handlers", []) or []:
-                _number(h_.body)
-
     # number innermost statements last so that their own nodes get their own number
     def _assign_numbers(stmts_):
         for st_ in stmts_:
